@@ -136,8 +136,8 @@ type State struct {
 	mems     map[string]*Mem
 	baseTag  string
 	famTags  map[string]famTag // families havocked as a whole since the last global havoc
-	allocTop *Term // element memories: next free address
-	refTop   *Term // object references: next free reference
+	allocTop *Term             // element memories: next free address
+	refTop   *Term             // object references: next free reference
 	ghost    map[string]*Term
 	dead     bool
 }
@@ -163,18 +163,18 @@ func (s *State) clone() *State {
 
 // VCtx: everything shared by one function verification.
 type VCtx struct {
-	mc      *MemCtx
-	bases   map[string]*Mem
-	hyps    []*Term
-	reads   map[string][]*Term // family -> addresses read
-	readSet map[string]map[int]bool
-	qhyps   []*QHyp
-	obls    []*Obligation
-	notes   []string
-	assumes map[string]int // named assumptions used (trusted specs, relies) -> count
-	curFam  string
-	insts   []qinst
-	seq     int
+	mc         *MemCtx
+	bases      map[string]*Mem
+	hyps       []*Term
+	reads      map[string][]*Term // family -> addresses read
+	readSet    map[string]map[int]bool
+	qhyps      []*QHyp
+	obls       []*Obligation
+	notes      []string
+	assumes    map[string]int // named assumptions used (trusted specs, relies) -> count
+	curFam     string
+	insts      []qinst
+	seq        int
 	instRounds int
 }
 
@@ -205,10 +205,10 @@ type Obligation struct {
 	Fn     string
 	Pos    string
 	// filled by the solver stage
-	Result  string
-	Backend string
-	Secs    float64
-	Model   map[string]string
+	Result    string
+	Backend   string
+	Secs      float64
+	Model     map[string]string
 	NQ        int
 	Seq       int
 	Output    string
@@ -705,7 +705,7 @@ func (e *Exec) fieldAddr(p PtrV, i int, st *State) PtrV {
 		case *types.Array:
 			base := App("arr:"+key, Ref, p.Addr)
 			e.arrayBaseFacts(key, base, p.Addr, fu.Len())
-			return PtrV{Kind: pArr, Key: "elem:" + typeName(fu.Elem()), Addr: base, T: ft}
+			return PtrV{Kind: pArr, Key: "elem:" + typeName(fu.Elem()), Addr: base, T: ft, FirstClass: true}
 		}
 		return PtrV{Kind: pLoc, Key: key, Addr: p.Addr, T: ft}
 	case pElem:
@@ -714,7 +714,11 @@ func (e *Exec) fieldAddr(p PtrV, i int, st *State) PtrV {
 		case *types.Struct:
 			return PtrV{Kind: pElem, Key: key, Addr: p.Addr, T: ft}
 		case *types.Array:
-			e.errorf("array field inside slice element")
+			// an array inside a slice element: its own region at an uninterpreted base
+			fu := under(ft).(*types.Array)
+			base := App("arrin:"+key, Ref, p.Addr)
+			e.arrayBaseFacts("in:"+key, base, p.Addr, fu.Len())
+			return PtrV{Kind: pArr, Key: "elem:" + typeName(fu.Elem()), Addr: base, T: ft, FirstClass: true}
 		}
 		return PtrV{Kind: pLoc, Key: key, Addr: p.Addr, T: ft}
 	}
